@@ -60,6 +60,18 @@ Theorem C15_script_left_with_skip_code : forall salt skip outs partial ntests, s
   exists k, script_verdict salt skip ntests skip (ideal salt 0 outs ++ partial) = VSkip k
             /\ (first_code skip outs 0 = None -> k = 0%N) /\ (forall j, first_code skip outs 0 = Some j -> k = j).
 Proof. exact script_verdict_left_early. Qed.
+(* the two levels agree: on the stream of a script that ran to its end the decision taken from the bytes is the decision of the
+   state machine over the per-test exit codes the other C15 theorems speak about (okf: whether an output matches, irrelevant here) *)
+From SV Require Import ScriptRefine.
+Theorem C15_script_bytes_refine_state_machine : forall okf salt skip exit outs, salt_plain salt -> Forall (payload_salted salt) outs ->
+  (N.of_nat (length outs) <= 18446744073709551616)%N ->
+  match script_verdict salt skip (N.of_nat (length outs)) exit (ideal salt 0 outs) with
+  | VSkip i => exec_script2 skip (map (abs_out okf) outs) None = ExSkipped (N.to_nat i)
+  | VOuts o => o = outs /\ exec_script2 skip (map (abs_out okf) outs) None = ExOk (map (abs_out okf) outs)
+  | VErr => False
+  end.
+Proof. exact script_verdict_refines. Qed.
+Print Assumptions C15_script_bytes_refine_state_machine.
 Example C15_script_bytes_instance :
   let salt := [115%N] in let o (c : Z) := ([111%N; 10%N], c) in
   script_verdict salt 80%Z 3 0%Z (ideal salt 0 [o 0%Z; o 80%Z; o 80%Z]) = VSkip 1
